@@ -296,7 +296,6 @@ func explainUnder(c *Cluster, dir string, local *Pod, remote Endpoint, admits []
 			}
 			continue
 		}
-		ruleOK := true
 		for pi := range r.Peers {
 			peer := &r.Peers[pi]
 			if !c.peerMatches(peer, a.Pol.NS, remote) {
@@ -312,10 +311,8 @@ func explainUnder(c *Cluster, dir string, local *Pod, remote Endpoint, admits []
 					continue
 				}
 			}
-			ruleOK = false
-			unexplained = append(unexplained, fmt.Sprintf("peer=%s rule=%s", peerKind(peer), ruleShape(r)))
+			unexplained = append(unexplained, "peer="+peerKind(peer))
 		}
-		_ = ruleOK
 	}
 	if len(unexplained) > 0 {
 		sort.Strings(unexplained)
@@ -426,8 +423,8 @@ func explainOver(c *Cluster, rs *ruleset, dir string, local *Pod, remote Endpoin
 			if !portsMatch(r.Ports, proto, port) {
 				portOK = "ports-do-not-admit"
 			}
-			desc := fmt.Sprintf("over-allow dir=%s remote=%s same-direction rule=%s policy=%s %s", dir,
-				relation(local, remote), ruleShape(r), sel, portOK)
+			desc := fmt.Sprintf("over-allow dir=%s remote=%s same-direction policy=%s %s", dir,
+				relation(local, remote), sel, portOK)
 			classes["unclassified-"+shapeHash(desc)] = true
 			notes = append(notes, desc)
 		} else {
